@@ -7,4 +7,5 @@ Extraction "extract/model.ml" NumF build optimise run run_states init advance ac
   from_operations_l
   positions to_cartesian_isometry periodic_images cell_area packed_score check_intersection
   shape_transform shape_intersects lj_score lj_energy ljshape_energy poly_area mol_area shape_radius
-  score_cmp score_eq max_keeps_first.
+  score_cmp score_eq max_keeps_first
+  from_radial polygon mol_trimer mol_circle lj_trimer lj_circle.
